@@ -95,6 +95,9 @@ static inline void rg_write(RG_WORD* p, RG_WORD o, RG_WORD n, int mo, int kind) 
 '''
 
 
+# real-code driver (thorough tier sanity run, replay of violations)
+DRIVERS = [('coro_mutex.cpp', [2000], 'coro')]
+
 def macros(repo):
     raw, txt = read_source(repo, F_CORO)
     m1 = re.search(r'#\s*define\s+YACLIB_TRANSFER\(handle\)\s*\\\s*return\s+yaclib_std::coroutine_handle<>\s*\{\s*\\\s*handle\s*\\\s*\}', txt)
@@ -376,3 +379,9 @@ void h2(void) { void* s; void* p; g_await = g_await_sh = 0; await_suspend(s, p);
     if getattr(ctx, 'prop', None) == 'C15':
         out = [j for j in out if 'LockAwaiter' in j.name]      # the awaiter shared with SharedMutex
     return out
+
+
+def replay(ctx, res, failed, rec):
+    """the real coroutine Mutex of the tree under check (CORO build): deterministic arrival-order scenarios for all option pairs and unlock forms, then a 4-thread stress"""
+    from vf.replay import run_coro_driver
+    return run_coro_driver(ctx, 'coro_mutex.cpp', [2000], timeout=150)
